@@ -569,6 +569,56 @@ def normalise(fn, world=None, modname=None, cls=None, primitives=(),
     return fn
 
 
+def canon_class_refs(fn, world, modname, prefix="dali.frame."):
+    """References to classes of one module (`ForwardFrame` imported by
+    name, `frame.ForwardFrame`, `dali.frame.ForwardFrame`) written in the one
+    fully qualified spelling, so that rules comparing tests by their text
+    see the class and not the import style.  In place; returns the count."""
+    cnt = [0]
+
+    class R(ast.NodeTransformer):
+        def visit_Attribute(self, n):
+            if isinstance(n.ctx, ast.Load):
+                k = None
+                try:
+                    k = world.resolve_class(modname, n)
+                except Exception:
+                    k = None
+                if k is not None and k.qname.startswith(prefix):
+                    if ast.unparse(n) != k.qname:
+                        cnt[0] += 1
+                        return ast.copy_location(ast.parse(
+                            k.qname, mode="eval").body, n)
+                    return n
+            return self.generic_visit(n)
+
+        def visit_Name(self, n):
+            if isinstance(n.ctx, ast.Load):
+                k = None
+                try:
+                    k = world.resolve_class(modname, n)
+                except Exception:
+                    k = None
+                if k is not None and k.qname.startswith(prefix):
+                    cnt[0] += 1
+                    return ast.copy_location(ast.parse(
+                        k.qname, mode="eval").body, n)
+            return n
+    stored = {n.id for n in ast.walk(fn) if isinstance(n, ast.Name) and
+              isinstance(n.ctx, (ast.Store, ast.Del))} | {
+        a.arg for a in fn.args.args + fn.args.kwonlyargs}
+
+    class Guard(R):
+        def visit_Name(self, n):
+            if n.id in stored:
+                return n
+            return R.visit_Name(self, n)
+    Guard().visit(fn)
+    if cnt[0]:
+        ast.fix_missing_locations(fn)
+    return cnt[0]
+
+
 def split_conditional_augassign(fn):
     """`x OP= (A if t else B)` is `if t: x OP= A  else: x OP= B`, and an
     augmented assignment by the operation's neutral element (`>>= 0`,
